@@ -351,6 +351,11 @@ def _shapes_mgm2(tier, prop=None):
     for off in _subsets(["x1", "x2"]):
         q.append(dict(algo="mgm2", spec="pair2", stop_cycle=2, offerers=off))
     q.append(dict(algo="mgm2", spec="pair2", stop_cycle=2))  # random offerer draw explored symbolically
+    # every allowed value of the algorithm's own parameters (favor: how a tie between the coordinated and the unilateral gain is settled)
+    for fav in ("coordinated", "no"):
+        q.append(dict(algo="mgm2", spec="pair2", stop_cycle=2, offerers=["x1"], algo_params=dict(favor=fav)))
+        q.append(dict(algo="mgm2", spec="pair2", stop_cycle=2, offerers=["x2"], modes=["max"], algo_params=dict(favor=fav)))
+    q.append(dict(algo="mgm2", spec="chain3", stop_cycle=2, modes=["max"], offerers=["x2"], algo_params=dict(favor="coordinated")))
     # two decision phases with the roles changing (or not) between them; one computation running ahead
     # (too many symbolic paths for three nodes: these shapes are decided by the sampled native pass, 8x the usual number of runs)
     for roles in ([["x2", "x3"], ["x3"]], [["x1"], ["x1", "x3"]]):
